@@ -38,7 +38,8 @@ Plan cal_gen(const std::string &check, const std::string &tier, uint64_t seed, l
     Plan plan;
     std::string id = check.substr(0, 3);
     bool thorough = tier == "thorough";
-    bool c20 = id == "C20", c17 = id == "C17", c10 = id == "C10", c16 = id == "C16" || id == "C11" || id == "C03" || id == "C07";
+    bool retry = check.find("retry") != std::string::npos;
+    bool c20 = id == "C20" || retry, c17 = id == "C17", c10 = id == "C10", c16 = !retry && (id == "C16" || id == "C11" || id == "C03" || id == "C07");
     bool c12 = id == "C12";
     bool c07 = id == "C07" || check.find("store") != std::string::npos;
     if (c12) c16 = true;
